@@ -183,6 +183,19 @@ func (c *c03) genProject(r *rng) (Project, bool) {
 	if r.chance(500) {
 		return single, multi
 	}
+	if r.chance(150) {
+		// one of the included files is not there: the diagnostic (and nothing else, such as a file of
+		// the same name somewhere else) decides
+		var inc []string
+		for _, f := range sortedKeys(mp.Files) {
+			if f != mp.absRoot() {
+				inc = append(inc, f)
+			}
+		}
+		if len(inc) > 0 {
+			delete(mp.Files, inc[r.n(len(inc))])
+		}
+	}
 	return mp, multi
 }
 
@@ -214,6 +227,10 @@ func (c *c03) DumpCase(seed uint64, idx int) []Case {
 			if r.chance(300) {
 				a.Env.PoolDrop = 200
 			}
+		}
+		if e >= 1 {
+			a.Env.ReadOrder = r.n(len(readOrders))
+			a.Env.CwdShadow = r.chance(300)
 		}
 		if e == 2 || (e > 2 && r.chance(250)) {
 			for k := 1 + r.n(3); k > 0; k-- {
@@ -346,6 +363,7 @@ func executeConcurrent(ps []*Project, o Opts, env Env, seed uint64, forced []sim
 	simrt.SetMapPolicy(env.MapPolicy)
 	simrt.SetPoolPolicy(env.PoolPolicy, env.PoolDrop)
 	simrt.SetClock(1_700_000_000+env.ClockStart, env.RandSeed)
+	curReadOrder = env.ReadOrder
 	simrt.SetSchedPolicy(stayPm, -1, 0, 0)
 	d := mountProject(ps[0], env, nil)
 	total := uint64(0)
@@ -505,6 +523,11 @@ func (c *c03) check(cs *Case, record bool) *Case {
 	if ref.Panic != "" {
 		return nil // crashes are C01's business
 	}
+	if strings.Contains(ref.SerErr, "-differs") || strings.Contains(ref.SerErr, "returned-bytes-changed") {
+		// repeated calls on one JApi value, no other environment needed
+		return violation(cs, "nondeterminism", "repeated-call:"+strings.TrimSpace(ref.SerErr),
+			"reading the same accepted JApi value twice in the reference environment gives different answers:"+ref.SerErr)
+	}
 	for ei := range envs {
 		a := &envs[ei]
 		if a.HistoryFirst {
@@ -566,6 +589,24 @@ func (c *c03) check(cs *Case, record bool) *Case {
 func (c *c03) attribute(cs *Case, a *altEnv, ref *Result, what string) string {
 	if a.Fresh {
 		return "fresh-process"
+	}
+	if a.Env.ReadOrder != 0 {
+		e := refEnv
+		e.ReadOrder = a.Env.ReadOrder
+		if got, _, _ := execute(&cs.Project, cs.Opts, e, nil, cs.Seed, nil); got.Panic == "" {
+			if same, _ := ref.Same(&got); !same {
+				return "read-order:" + readOrders[a.Env.ReadOrder]
+			}
+		}
+	}
+	if a.Env.CwdShadow {
+		e := refEnv
+		e.CwdShadow = true
+		if got, _, _ := execute(&cs.Project, cs.Opts, e, nil, cs.Seed, nil); got.Panic == "" {
+			if same, _ := ref.Same(&got); !same {
+				return "working-directory"
+			}
+		}
 	}
 	differs := func(dec []simrt.Decision, hist, comp bool) bool {
 		b := *a
